@@ -51,6 +51,13 @@ func genOps(r *Rand, m *rd.Msg, nops int) (string, string) {
 	}
 	doPtr("root")
 	for k := 0; k < nops; k++ {
+		if k > 0 && r.Intn(14) == 0 {
+			// the message value is reused: Reset to the same bytes, all handles gone, budget re-armed
+			do("reset")
+			infos = nil
+			doPtr("root")
+			continue
+		}
 		h := r.Intn(len(infos))
 		if r.Intn(3) != 0 { // prefer recent handles: go deep
 			h = len(infos) - 1 - r.Intn(min(len(infos), 3))
